@@ -363,7 +363,7 @@ func c16Describe(in []int64) string {
 }
 
 func init() {
-	Register(&Prop{ID: "C16", Num: 16, SpecMode: "equal", Gen: c16Gen, Impl: c16Impl,
+	Register(&Prop{ID: "C16", Pure: true, Num: 16, SpecMode: "equal", Gen: c16Gen, Impl: c16Impl,
 		Shrink: c16Shrink, Describe: c16Describe,
 		Rule: "exhaustive: every op sequence up to the tier's length over values {0,1,62,63,64,65,127,128,129} (word boundaries) for setz.Bits, setz.Bitmap, dsz.Bits, followed by Len+Iter; random: 5-60 ops over two sets of different word counts mixing element and bulk ops. distinct = distinct op sequence; non-trivial = at least 2 operations of at least 2 kinds before the final observation"})
 }
